@@ -207,9 +207,15 @@ def status_after_shape_changes():
                  c_add([b"."]), c_status()]
 
 
-ORACLE_ONLY = {"newline-names"}
+def invalid_ignore_lines():
+    return ID + [W(b".goitignore", b"[\n*.log\n(\nout/\n"), W(b"a.log", b"x"), W(b"b", b"y"), W(b"out/o", b"o"), c_status(), c_add([b"."]),
+                 c_ls_files(False), c_commit(b"c"), c_status(), W(b".goitignore", b"a**\n\\\n"), c_status(), c_add([b"b"]), c_log(2)]
+
+
+ORACLE_ONLY = {"newline-names", "invalid-ignore-lines"}
 
 DIRECTED = [
+    (("C18",), "invalid-ignore-lines", invalid_ignore_lines, "F49: .goitignore lines that are not valid regular expressions must not crash any command (outside the model's ignore alphabet: oracle only)"),
     (("C13", "C18"), "status-after-shape-changes", status_after_shape_changes, "tracked files whose parent directory was replaced by a file (ENOTDIR), a tracked file replaced by a directory, an identical rewrite"),
     (("C04", "C06", "C09"), "removed-directory-and-dot", removed_directory_and_dot, "F47/F48: add of a tracked directory removed from disk; restore --staged . after entries of HEAD were unstaged"),
     (("C18", "C08", "C03", "C11"), "reset-after-rename", reset_after_rename, "every reflog position after branch --rename (which journals a record without a commit id), in every mode"),
